@@ -207,13 +207,15 @@ def h_private(c, pkg, mlen):
         c.reach('private_done')
 
 
-def h_builders(c, pkg, variant, lite=False):
+def h_builders(c, pkg, variant, lite=False, flags='00'):
     """make_adapter_locks_pub / _prv + make_adapter_witness + decrypt_adapter end to end"""
     F, T_ = pkg.functions, pkg.tools
     seed, m, t = _setup(c, 2)
     stubs.CONFIG.log2_max_bits = 48
     stubs.CONFIG.alg_merge_points = not lite
     sf = SDict({'sigfield1': m})
+    if flags != '00':
+        sf['sigfield2'] = c.bytes('m2', 2)          # a non-zero sigflag masks a field that is present and non-empty
     sf.wlog = []
     with algebra.XorShortcut(pkg):
         tc = F.clamp_scalar(t)
@@ -221,14 +223,21 @@ def h_builders(c, pkg, variant, lite=False):
         X = F.derive_point_from_scalar(F.derive_key_from_seed(seed))
         algebra.mark_point(X)
         if variant == 'pub':
-            s1, s3 = T_.make_adapter_locks_pub(X, TP, '00')
+            s1, s3 = T_.make_adapter_locks_pub(X, TP, flags)
             s2 = T_.make_adapter_decrypt(t)
         else:
-            s1, s2, s3 = T_.make_adapter_locks_prv(X, t, '00')
-        wit = T_.make_adapter_witness(seed, TP, sf, '00')
+            s1, s2, s3 = T_.make_adapter_locks_prv(X, t, flags)
+            # the private-tweak builder yields the very locks of the public-tweak builder for T = t*G and the same sigflags
+            p1, p3 = T_.make_adapter_locks_pub(X, TP, flags)
+            c.check('prv_and_pub_builders_agree', len(p1.bytes) == len(s1.bytes) and bytes_eq(p1.bytes, s1.bytes) and
+                    len(p3.bytes) == len(s3.bytes) and bytes_eq(p3.bytes, s3.bytes), flags=flags)
+        wit = T_.make_adapter_witness(seed, TP, sf, flags)
         c.check('adapter_witness_is_68_bytes', len(wit.bytes) == 68)
         r = outcome_of(F.run_auth_scripts, [wit, s1], sf)
-        c.check('adapter_witness_satisfies_the_adapter_lock', r[0] == 'ok' and r[1] is True, got=repr(r)[:120])
+        c.check('adapter_witness_satisfies_the_adapter_lock', r[0] == 'ok' and r[1] is True, got=repr(r)[:120], flags=flags)
+        if lite and flags != '00':
+            c.reach('builders_ok')
+            return
         if lite:
             R, sa, _, _ = _make_public(pkg, seed, m, TP)
             c.check('witness_bytes_2_34_are_sa', bytes_eq(wit.bytes[2:34], sa))
@@ -347,24 +356,33 @@ def r_builders(inputs, params, obligation):
     import tapescript.tools as RT
     import tapescript.functions as RF
     seed, m, t = inputs['seed'], inputs.get('m', b'\x00\x00'), inputs['t']
+    fl = params.get('flags', '00')
     sf = {'sigfield1': m}
+    if fl != '00':
+        sf['sigfield2'] = inputs.get('m2', b'\x01\x02')
     try:
         tc = RF.clamp_scalar(t)
         TP = RF.derive_point_from_scalar(tc)
         X = RF.derive_point_from_scalar(RF.derive_key_from_seed(seed))
+        agree = True
         if params.get('variant', 'pub') == 'pub':
-            s1, s3 = RT.make_adapter_locks_pub(X, TP, '00')
+            s1, s3 = RT.make_adapter_locks_pub(X, TP, fl)
         else:
-            s1, s2, s3 = RT.make_adapter_locks_prv(X, t, '00')
-        wit = RT.make_adapter_witness(seed, TP, dict(sf), '00')
+            s1, s2, s3 = RT.make_adapter_locks_prv(X, t, fl)
+            p1, p3 = RT.make_adapter_locks_pub(X, TP, fl)
+            agree = p1.bytes == s1.bytes and p3.bytes == s3.bytes
+        wit = RT.make_adapter_witness(seed, TP, dict(sf), fl)
         a = tapescript.run_auth_scripts([wit, s1], dict(sf))
         sig = RT.decrypt_adapter(wit, t)
-        b = tapescript.run_auth_scripts([RT.Script.from_src(f'push x{sig.hex()}'), s3], dict(sf))
-        lock = RT.make_adapter_lock_pub(X, TP, '00')
-        c3 = tapescript.run_auth_scripts([RT.Script.from_src(f'push x{t.hex()}') + wit, lock], dict(sf))
+        b = c3 = True
+        if fl == '00':
+            b = tapescript.run_auth_scripts([RT.Script.from_src(f'push x{sig.hex()}'), s3], dict(sf))
+            lock = RT.make_adapter_lock_pub(X, TP, '00')
+            c3 = tapescript.run_auth_scripts([RT.Script.from_src(f'push x{t.hex()}') + wit, lock], dict(sf))
     except BaseException as e:       # noqa
         return {'reproduced': False, 'note': f'degenerate input: {type(e).__name__}: {e}'}
-    return {'reproduced': not (a and b and c3), 'adapter_lock': a, 'signature_lock': b, 'combined_lock': c3}
+    return {'reproduced': not (a and b and c3 and agree), 'adapter_lock': a, 'signature_lock': b, 'combined_lock': c3,
+            'prv_pub_agree': agree}
 
 
 def r_tweak(inputs, params, obligation):
@@ -444,8 +462,11 @@ HARNESSES = [
                                                for p in ('check', 'sa_altered', 'decrypt', 'check_sig', 'recover')],
                 replay=r_public, signature=_sig, fallback=_fallback),
     HarnessSpec('private', h_private, lambda t: [{'mlen': n} for n in (2,)], replay=r_private, signature=_sig, fallback=_fallback),
-    HarnessSpec('builders', h_builders, lambda t: ([{'variant': 'pub', 'lite': True}, {'variant': 'prv', 'lite': True}] if t == 'quick' else
-                                                   [{'variant': 'pub'}, {'variant': 'prv'}]),
+    HarnessSpec('builders', h_builders, lambda t: ([{'variant': 'pub', 'lite': True}, {'variant': 'prv', 'lite': True},
+                                                    {'variant': 'pub', 'lite': True, 'flags': '01'}, {'variant': 'prv', 'lite': True, 'flags': '01'}]
+                                                   if t == 'quick' else
+                                                   [{'variant': 'pub'}, {'variant': 'prv'}, {'variant': 'pub', 'lite': True, 'flags': '01'},
+                                                    {'variant': 'prv', 'lite': True, 'flags': '01'}, {'variant': 'prv', 'lite': True, 'flags': '82'}]),
                 replay=r_builders, signature=_sig, fallback=_fallback),
     HarnessSpec('tweak_validity', h_tweak_validity, [{'which': 'check'}, {'which': 'make'}], replay=r_tweak_validity, signature=_sig,
                 fallback=lambda p, rng: {'seed': rng.randbytes(32), 'm': rng.randbytes(2)}),
